@@ -37,6 +37,8 @@ def run(ctx) -> None:
     from . import c13
 
     ctx.reuse("C10.slot-order", c13.one_to_one)
+    for name_, track_ in (("evo_aspirate", "remove"), ("evo_dispense", "add")):
+        ctx.reuse("C10.tips-unchanged", c13.same_args, name_, track_)
 
 
 def _tip_table(ctx, rule) -> Dict[str, int]:
